@@ -13,7 +13,7 @@ From RU Require Import Base.Prelude Base.Utf8 Base.Utf8Facts Model.AsciiSet Gen.
   Proofs.C02_AuthMain Proofs.C02_Hist Proofs.C02_HistInst Proofs.C02_SetQF Proofs.C02_Canon Proofs.C02_SetPort
   Proofs.C02_JoinTail Proofs.C02_ReachPartial.
 From RU Require Import Model.Host Proofs.C09_Host Proofs.C16_RT6Model.
-From RU Require Import Model.FormUrlencoded Model.QueryPairs Proofs.C02_Form Proofs.C02_Reach3.
+From RU Require Import Model.FormUrlencoded Model.QueryPairs Proofs.C02_Form Proofs.C02_SetCred Proofs.C02_SetCredCanon Proofs.C02_Reach3.
 From RU Require Proofs.C15_Ser.
 Open Scope string_scope.
 Open Scope N_scope.
@@ -707,6 +707,56 @@ Theorem C02_qpm_shape : forall dbg pre se ue hs he hi pt ps q f ops,
 Proof. exact qpm_session_qf. Qed.
 Print Assumptions C02_qpm_shape.
 
+(* K.2b  L2 for set_password and set_username (G3): for every Canon record and every argument the result is Canon.
+   On a record with a non-empty host the userinfo text is replaced by a canonical userinfo (user name and password
+   are the USERINFO encoding of the arguments; an empty password or None removes ':' password, and '@' too when the
+   user name is empty; an empty user name in front of a password gives ":pw@"); records without host (opaque path,
+   no authority, empty host) refuse and stay unchanged.  Uses that a displayed host starts with neither ':' nor '@'
+   (host_text_ok).  Same length premise as for the other setters *)
+Theorem C02_set_password_Canon : forall dbg hp hpo hd u pw u' s, Canon hp hpo hd u -> usv_opt pw ->
+  set_password dbg u pw = Some (u', s) -> nlen (ser u') <= U32_MAX_P -> Canon hp hpo hd u'.
+Proof. exact set_password_Canon. Qed.
+Check C02_set_password_Canon : forall dbg hp hpo hd u pw u' s, Canon hp hpo hd u ->
+  (match pw with Some x => usv_list x | None => True end) ->
+  set_password dbg u pw = Some (u', s) -> nlen (ser u') <= 4294967295 -> Canon hp hpo hd u'.
+Print Assumptions C02_set_password_Canon.
+
+Theorem C02_set_username_Canon : forall dbg hp hpo hd u un u' s, Canon hp hpo hd u -> usv_list un ->
+  set_username dbg u un = Some (u', s) -> nlen (ser u') <= U32_MAX_P -> Canon hp hpo hd u'.
+Proof. exact set_username_Canon. Qed.
+Check C02_set_username_Canon : forall dbg hp hpo hd u un u' s, Canon hp hpo hd u -> usv_list un ->
+  set_username dbg u un = Some (u', s) -> nlen (ser u') <= 4294967295 -> Canon hp hpo hd u'.
+Print Assumptions C02_set_username_Canon.
+
+(* the two setters computed on the frame  scheme "://" user rest X  (rest = "" | "@" | ":" pw "@"; X = everything from
+   the host on, offsets behind the userinfo stored relative to its start) *)
+Theorem C02_set_password_shape : forall dbg sch X dh dp dq df hi pt Un Ur p, usv_list p -> p <> [] ->
+  cannot_have_credentials_or_port (sh_url sch X dh dp dq df hi pt Un Ur) = Some false ->
+  set_password dbg (sh_url sch X dh dp dq df hi pt Un Ur) (Some p)
+  = Some (sh_url sch X dh dp dq df hi pt Un (58 :: uenc p ++ [64]), SOk).
+Proof. exact set_password_some_sh. Qed.
+Print Assumptions C02_set_password_shape.
+
+Theorem C02_set_username_shape : forall dbg sch X dh dp dq df hi pt Un P un, usv_list un ->
+  cannot_have_credentials_or_port (sh_url sch X dh dp dq df hi pt Un (58 :: P ++ [64])) = Some false ->
+  set_username dbg (sh_url sch X dh dp dq df hi pt Un (58 :: P ++ [64])) un
+  = Some (if list_eqb Un (utf8_encode un) then sh_url sch X dh dp dq df hi pt Un (58 :: P ++ [64])
+          else sh_url sch X dh dp dq df hi pt (uenc un) (58 :: P ++ [64]), SOk).
+Proof. exact set_username_pw_sh. Qed.
+Print Assumptions C02_set_username_shape.
+
+Example C02_cred_inhabited :
+  match ex_hist "a://h.x/p" [OSetUsername (B "u s")] with Some u => list_eqb (ser u) (B "a://u%20s@h.x/p") | None => false end = true
+  /\ match ex_hist "a://h.x/p" [OSetUsername (B "u s"); OSetPassword (Some (B "p:w"))] with
+     | Some u => list_eqb (ser u) (B "a://u%20s:p%3Aw@h.x/p") | None => false end = true
+  /\ match ex_hist "a://h.x/p" [OSetUsername (B "u s"); OSetPassword (Some (B "p:w")); OSetUsername []] with
+     | Some u => list_eqb (ser u) (B "a://:p%3Aw@h.x/p")
+                 && match parse_url true ex_hp ex_hp ex_hd None None (ser u) with POk v => url_eqb v u | _ => false end
+     | None => false end = true
+  /\ match ex_hist "a://h.x/p" [OSetUsername (B "u s"); OSetPassword (Some (B "p:w")); OSetUsername []; OSetPassword None] with
+     | Some u => list_eqb (ser u) (B "a://h.x/p") | None => false end = true.
+Proof. exact cred_example. Qed.
+
 (* K.3  the quantifier with query_pairs_mut.  Reachable2 (section A) has no constructor for Url::query_pairs_mut -
    a public mutator whose result does not come out of the parser; Reachable3 = Reachable2 + such sessions *)
 Definition C02_full_statement3 : Prop := C02_statement3.
@@ -715,7 +765,8 @@ Theorem C02_statement3_implies_statement : C02_statement3 -> C02_statement.
 Proof. exact statement3_implies_2. Qed.
 Print Assumptions C02_statement3_implies_statement.
 
-(* C02_statement3 restricted to the histories of C02_reach_partial extended by query_pairs_mut sessions (ReachC2) *)
+(* C02_statement3 restricted to the histories of C02_reach_partial extended by set_password / set_username calls with
+   arbitrary arguments and by query_pairs_mut sessions (ReachC2; canon_op = the five setters with a proved L2) *)
 Theorem C02_reach_partial2 : forall dbg hp hpo hd, HostOK2 hp hpo hd -> forall u, ReachC2 dbg hp hpo hd u ->
   Fixpoint_of_reparse dbg hp hpo hd u /\ wf_b u = true /\ ascii (ser u).
 Proof. exact reach_partial2. Qed.
